@@ -96,7 +96,7 @@ def unit_h1(cfg):
     label = "H1/%s/%s/%s/mode=%s/%s" % (name, dim, ",".join("%s=%d" % kv for kv in sorted(lengths.items())) or "mono", mode, want)
     if magnetic:
         label += "/magnetic=" + ("all" if magnetic is True else "+".join(sorted(magnetic)))
-    u = Unit(label, timeout_ms=60000)
+    u = Unit(label, timeout_ms=30000)
     try:
         km = KModel.get(name)
     except Exception as e:
@@ -251,7 +251,7 @@ def _range_reference(km, mesh, cd, q, cutoff, mode, dim, start, stop, incoming):
 def unit_h2(cfg):
     name, dim, lengths, mode = cfg
     label = "H2/%s/%s/%s/mode=%s" % (name, dim, ",".join("%s=%d" % kv for kv in sorted(lengths.items())), mode)
-    u = Unit(label, timeout_ms=60000)
+    u = Unit(label, timeout_ms=30000)
     km = KModel.get(name)
     info = km.info
     mesh, syms = sym_mesh(info, lengths, dim)
